@@ -258,6 +258,12 @@ class UnionConverter(Converter[t.Any]):
                 pass
             else:
                 return conv.into_data(val)
+        # a dataclass instance is not data, so no try_convert accepts it.
+        # a tagged union member must still write its variants in its own layout
+        for conv in self.converters:
+            if isinstance(conv, TaggedUnionConverter) \
+                    and isinstance(val, tuple(ty for ty in conv.types if isinstance(ty, type))):
+                return conv.into_data(val)
         # default to regular conversion
         return into_data(val)
 
